@@ -313,3 +313,23 @@ Proof.
   unfold dh_fwd_pos, dh_fwd_vel, whds_fwd_vel, com_comp, COM, msum. cbn [hd].
   rewrite sumf_acc, wsum_acc. cbn [nzero nadd ndiv RNum]. rewrite !Rplus_0_l. auto.
 Qed.
+
+(* N_active = 0 (no particle flagged active): the Jacobi routines are the N_active = 1 routines (na - 1 = 0 both times),
+   so the round trip holds and slot 0 holds particle 0 itself (the centre of mass of the reference body alone) *)
+Lemma jacobi_no_active_same {T} (N : Num T) ms qs js mtot :
+  jac_fwd N ms qs 0 = jac_fwd N ms qs 1 /\ jac_inv N ms js mtot 0 = jac_inv N ms js mtot 1.
+Proof. split; reflexivity. Qed.
+
+Theorem jacobi_no_active ms qs : jac_ok ms qs 1 ->
+  jac_inv RNum ms (fst (jac_fwd RNum ms qs 0)) (snd (jac_fwd RNum ms qs 0)) 0 = qs /\
+  hd 0 (fst (jac_fwd RNum ms qs 0)) = hd 0 qs.
+Proof.
+  intros H. split; [exact (jacobi_roundtrip ms qs 1 H)|].
+  change (jac_fwd RNum ms qs 0) with (jac_fwd RNum ms qs 1).
+  destruct (jacobi_slot0 ms qs 1 H) as [Hc _]. rewrite Hc.
+  destruct H as (Hl & Hn & He).
+  destruct ms as [|m0 mr]; [cbn in Hn; lia|]. destruct qs as [|q0 qr]; [discriminate|].
+  apply eta_ok_head in He. cbn [hd] in He |- *.
+  unfold COM. cbn [firstn combine].
+  unfold Wsum, Msum. cbn. field. exact He.
+Qed.
